@@ -25,7 +25,6 @@ META["C12"] = {
     "witness (project + permutation) is replayed with the real `python -m ford` under different PYTHONHASHSEED values; only "
     "byte-different output trees count as a violation.",
     "outside": ["number of worker processes (parallel>0): scheduling is not a function of symbolic data",
-                "stale output directory contents (file-system state, cf. C19)",
                 "sets created by comprehensions / operators and sets inside third-party code (toposort, graphviz, jinja2)",
                 "graph generation (ford/graphs.py) and the search index",
                 f"more than {permset.MAX_ELEMS} elements per set, more than 3 files"],
@@ -462,3 +461,15 @@ def _graph_ob(group):
 
 for _g in GRAPH_GROUPS:
     _graph_ob(_g)
+
+
+
+# ---------------------------------------------------------------------------------------
+# O4: what an earlier run left in the output directory (file-system stub shared with C19, see fv/props/c19.py)
+# ---------------------------------------------------------------------------------------
+@obligation("C12", "O4.stale-output-directory", engine="SX+file-system stub", timeout=900)
+def stale_output(ctx):
+    """Documentation.writeout on the in-memory file system: for every option profile the written tree is the same whether the output
+    directory was absent, a plain file, or a directory holding stale pages and directories of another project"""
+    from fv.props import c19
+    c19.writeout_obligation(ctx, "stale")
